@@ -341,7 +341,18 @@ def report(out, seed):
         violations += 1
         lines.append("VIOLATION property=%s replay=%s" % (pid, rp))
     for e in b.errors:
-        checker_errors.append(e)
+        name = "%s/bounded/driver_runs_to_completion" % pid
+        if e.startswith("bounded driver crashed") and name in expected:
+            # the run-time contracts ran to completion on the tree the baseline was written from and the check's own code is the same:
+            # what stops them now is a change of the library (an exception where there was none, a result of another shape).  Reported
+            # as a violation without a failing input; the traceback is the reason
+            rp = os.path.join(rdir, name.replace("/", "__") + ".json")
+            json.dump({"property": pid, "obligation": name, "kind": "bounded", "why": "the run-time contract driver, which completes on the baseline tree, stopped: " + e,
+                       "confirmed_natively": False, "failing_input": None}, open(rp, "w"), indent=1, default=str)
+            violations += 1
+            lines.append("VIOLATION property=%s replay=%s no-failing-input-found" % (pid, rp))
+        else:
+            checker_errors.append(e)
     seen = set()
     for k, name, cex in known_hits:
         key = (k.get("obligation"), str(k.get("witness")))
@@ -474,6 +485,8 @@ def write_baseline(out):
     for fr in out.get("frames", []):
         if fr["status"] == "proved":
             exp[fr["name"]] = {"back_end": "frame", "tier": "F"}
+    if out.get("b") is not None and not out["b"].errors and out["b"].evaluations > 0:
+        exp["%s/bounded/driver_runs_to_completion" % pid] = {"back_end": "run-time contracts", "tier": "B"}
     json.dump(exp, open(p, "w"), indent=0, sort_keys=True)
 
 
